@@ -19,11 +19,11 @@ RULE = ("case = (fee percentage, minimum fee, quote precision, base precision, s
         "fills, fill price per part); all cases of the product up to N are executed on the real exchange and the fee "
         "oracle is evaluated after every fill. Distinct = distinct cases; non-trivial = at least two fills.")
 ASSUMPTIONS = [
-    "N <= 5 (quick) / 7 (thorough) units; prices from {33.337, 100, 1234.5678, 0.07} (quantised to the quote precision)",
+    "N <= 6 (quick) / 7 (thorough) units; prices from {33.337, 100, 1234.5678, 0.07} (quantised to the quote precision)",
     "percentages {0, 0.1, 0.25, 1, 2.5, 99.99}, minimum fees {0, 0.01, 1, 5}, quote precision {0, 2, 8}, base precision {0, 2}",
     "partial fills are produced with VolumeShareImpact(100, 0): each bar's volume is the size of the next part",
 ]
-BOUNDS = {"quick": dict(max_units=5), "thorough": dict(max_units=7)}
+BOUNDS = {"quick": dict(max_units=6), "thorough": dict(max_units=7)}
 EXPLANATION = ("bounded exhaustive enumeration of fill sequences against the real exchange; every case is an "
                "implementation run")
 P = PAIRS[0]
